@@ -320,6 +320,17 @@ MAINLOOP:
 			return
 		}
 
+		// Bring the directory watch and the event-name filter up to date
+		// BEFORE reading: anything that changes after the watch is in
+		// place produces an event, anything before it is seen by the read.
+		{
+			oldDir := filepath.Dir(resolvedCfgPath)
+			if p, ok := resolveTarget(cleanedPath); ok {
+				resolvedCfgPath = p
+			}
+			ws.updateDirWatches(oldDir, filepath.Dir(resolvedCfgPath))
+		}
+
 		newVal, parseErr := ws.Value(ctx, t)
 		if verifhook.Enabled {
 			verifhook.Point("file.read", ctx, ws.path, parseErr)
@@ -377,6 +388,35 @@ MAINLOOP:
 		}
 	}
 
+}
+
+// resolveTarget resolves the symlinks of path like filepath.EvalSymlinks,
+// but tolerates the final file being absent: the symlinks of the directory
+// that will contain it are still resolved.
+func resolveTarget(path string) (string, bool) {
+	if p, err := filepath.EvalSymlinks(path); err == nil {
+		return p, true
+	}
+	cur := path
+	for i := 0; i < 40; i++ {
+		fi, err := os.Lstat(cur)
+		if err != nil || fi.Mode()&os.ModeSymlink == 0 {
+			dir, derr := filepath.EvalSymlinks(filepath.Dir(cur))
+			if derr != nil {
+				return "", false
+			}
+			return filepath.Join(dir, filepath.Base(cur)), true
+		}
+		tgt, err := os.Readlink(cur)
+		if err != nil {
+			return "", false
+		}
+		if !filepath.IsAbs(tgt) {
+			tgt = filepath.Join(filepath.Dir(cur), tgt)
+		}
+		cur = tgt
+	}
+	return "", false
 }
 
 func (ws *WatchingSource) updateDirWatches(oldResolvedCfgDir, resolvedCfgDir string) {
